@@ -885,6 +885,39 @@ func bvApply(op token.Token, a, b BV, w int, signed bool) BV {
 				return bw(bitOr)
 			}
 		}
+		// x + 2^k where x has only one bits from k up (x in [-2^k, 0)): the low k bits of x, zeros above;
+		// x - 2^k where x has only zero bits from k up (x in [0, 2^k)): the low k bits of x, ones above
+		if (op == token.ADD || op == token.SUB) && (okb || (oka && op == token.ADD)) {
+			x, k2 := a, kb
+			if !okb {
+				x, k2 = b, ka
+			}
+			if k2 != 0 && k2&(k2-1) == 0 {
+				k := 0
+				for k2>>uint(k) != 1 {
+					k++
+				}
+				want := b1
+				fillK := b0
+				if op == token.SUB {
+					want, fillK = b0, b1
+				}
+				all := k < w
+				for i := k; i < w; i++ {
+					if x[i].K != want {
+						all = false
+					}
+				}
+				if all {
+					out := make(BV, w)
+					copy(out, x[:k])
+					for i := k; i < w; i++ {
+						out[i] = bit{K: fillK}
+					}
+					return out
+				}
+			}
+		}
 		if op == token.MUL && oka && !okb && ka != 0 && ka&(ka-1) == 0 {
 			return bvApply(op, b, a, w, signed)
 		}
